@@ -880,7 +880,11 @@ class SC:
     @property
     def imag(s): return SC((s.p - s.p.conj(CTX.atoms)).scale(G(0, F(-1, 2))))
 
-    def __abs__(s): return SAbs(s)
+    def __abs__(s):
+        if s.p.is_const():
+            c = s.p.const_value()
+            if c.im == 0: return SC.lift(abs(c.re))
+        return SAbs(s)
 
     def _cmp(s, o, swap, strict):
         # returns SBool for  s > o (swap False) or o > s (swap True)
@@ -1013,6 +1017,17 @@ class SAbs:
     def value(s):
         return s._real_abs()
 
+    def __eq__(s, o):
+        if isinstance(o, SAbs): o = o._polar()
+        if isinstance(o, (int, float)) and o == 0: return s.z == 0
+        return s._polar() == o
+
+    def __ne__(s, o):
+        r = s.__eq__(o)
+        return SBool(lambda: not bool(r)) if isinstance(r, SBool) else (not r)
+
+    __hash__ = None
+
 
 def sym(name, **kw):
     return SC(Poly.atom(CTX.atoms.new(name, **kw)))
@@ -1068,7 +1083,10 @@ def sym_round(x, decimals=0):
         a = C.grid_atom(f'round{len(memo)}', decimals)
         r = SC(Poly.atom(a))
         half = F(1, 2) * (F(1, 10 ** decimals) if decimals >= 0 else F(10 ** (-decimals)))
-        C.facts.append(((r - x + half).p, False)); C.facts.append(((x - r + half).p, False))
+        # both facts are non-strict: at an exact tie either neighbour is allowed (numpy rounds half to even on the binary value)
+        f1 = (r - x + half).p; f2 = (x - r + half).p
+        C.extra.setdefault('tie_facts', set()).update((f1.key(), f2.key()))
+        C.facts.append((f1, False)); C.facts.append((f2, False))
         memo[key] = r
     return memo[key]
 
